@@ -75,3 +75,65 @@ pub fn c15d_short_hex_iff_symmetrical() {
     kani::cover!(true, "end");
     core::mem::forget(c);
 }
+
+// ---- C15d: hex colour literals (3/4/6/8 digits) denote the documented channels ----
+
+use crate::util::{fixed_random_state, fmt_stub, span};
+use grass_compiler::verif::{parse_hex_color, VLexer};
+
+const HEX: [char; 22] = ['0', '1', '2', '3', '4', '5', '6', '7', '8', '9', 'a', 'b', 'c', 'd', 'e', 'f', 'A', 'B', 'C', 'D', 'E', 'F'];
+const HEXV: [u32; 22] = [0, 1, 2, 3, 4, 5, 6, 7, 8, 9, 10, 11, 12, 13, 14, 15, 10, 11, 12, 13, 14, 15];
+
+fn hex_literal<const N: usize>() {
+    let mut chars = [' '; 10];
+    chars[0] = '#';
+    let mut v = [0u32; 8];
+    let mut i = 0;
+    while i < N {
+        let k: usize = kani::any();
+        kani::assume(k < 22);
+        chars[1 + i] = HEX[k];
+        v[i] = HEXV[k];
+        i += 1;
+    }
+    // the literal is followed by a non-hex character
+    chars[1 + N] = ';';
+    let mut lx = VLexer::from_chars(&chars[..N + 2], span((N + 2) as u32), false);
+    lx.set_cursor(1);
+    let options = grass_compiler::Options::default();
+    let (r, lx) = parse_hex_color(lx, &options);
+    match &r {
+        Ok(c) => {
+            let (want_r, want_g, want_b, want_a) = match N {
+                3 => (v[0] * 17, v[1] * 17, v[2] * 17, 255),
+                4 => (v[0] * 17, v[1] * 17, v[2] * 17, v[3] * 17),
+                6 => (v[0] * 16 + v[1], v[2] * 16 + v[3], v[4] * 16 + v[5], 255),
+                _ => (v[0] * 16 + v[1], v[2] * 16 + v[3], v[4] * 16 + v[5], v[6] * 16 + v[7]),
+            };
+            assert!(c.red().0 == want_r as f64 && c.green().0 == want_g as f64 && c.blue().0 == want_b as f64,
+                "C15d: hex literal channels differ from the CSS definition (#abc = #aabbcc, #abcd = #aabbccdd)");
+            assert!(c.alpha().0 == want_a as f64 / 255.0, "C15d: hex literal alpha differs from the CSS definition");
+            assert!(lx.cursor() == N + 1, "C15d: hex literal reader consumed the wrong number of digits");
+            kani::cover!(true, "parsed");
+        }
+        Err(_) => assert!(false, "C15d: a well-formed hex literal was rejected"),
+    }
+    kani::cover!(true, "end");
+    core::mem::forget(r);
+    core::mem::forget(lx);
+    core::mem::forget(options);
+}
+
+macro_rules! hinst {
+    ($name:ident, $n:expr) => {
+        #[kani::proof]
+        #[kani::unwind(12)]
+        #[kani::stub(std::hash::RandomState::new, fixed_random_state)]
+        #[kani::stub(alloc::fmt::format, fmt_stub)]
+        pub fn $name() { hex_literal::<$n>() }
+    };
+}
+hinst!(c15d_hex_literal_3, 3);
+hinst!(c15d_hex_literal_4, 4);
+hinst!(c15d_hex_literal_6, 6);
+hinst!(c15d_hex_literal_8, 8);
